@@ -848,10 +848,26 @@ class Evaluator:
         return atom(("invert", v))
 
     def ev_BoolOp(self, e, st):
-        vals = [self.ev(x, st) for x in e.values]
-        if isinstance(e.op, ast.And):
-            return T.mk_and(vals)
-        return T.mk_or(vals)
+        # short-circuit on statically decided operands (so that folded
+        # branches do not leave spurious loads / calls behind)
+        is_and = isinstance(e.op, ast.And)
+        vals = []
+        mark = len(self.pc)
+        for x in e.values:
+            v = self.ev(x, st)
+            tv = T.truth(v) if T.is_pure_const(v) else None
+            if tv is not None:
+                if tv != is_and:
+                    del self.pc[mark:]
+                    return v if not T._boolish(v) or True else v
+                continue
+            vals.append(v)
+            # later operands are evaluated only if this one is true (and) / false (or)
+            self.push_pc(v, is_and, x)
+        del self.pc[mark:]
+        if not vals:
+            return T.TRUE if is_and else T.FALSE
+        return T.mk_and(vals) if is_and else T.mk_or(vals)
 
     def ev_Compare(self, e, st):
         left = self.ev(e.left, st)
